@@ -19,8 +19,11 @@ import (
 
 	"github.com/LiskHQ/lisk-engine/pkg/blockchain"
 	"github.com/LiskHQ/lisk-engine/pkg/codec"
+	"github.com/LiskHQ/lisk-engine/pkg/consensus"
+	"github.com/LiskHQ/lisk-engine/pkg/consensus/liskbft"
 	"github.com/LiskHQ/lisk-engine/pkg/crypto"
 	"github.com/LiskHQ/lisk-engine/pkg/db"
+	"github.com/LiskHQ/lisk-engine/pkg/db/diffdb"
 	"github.com/LiskHQ/lisk-engine/pkg/framework"
 	"github.com/LiskHQ/lisk-engine/pkg/framework/blueprint"
 	"github.com/LiskHQ/lisk-engine/pkg/generator"
@@ -112,6 +115,7 @@ type mod struct {
 	blueprint.Module
 	cur     *txScript
 	scripts map[int]*txScript // by Transaction.Params[0] (block generation executes in its own order)
+	nb, na  int               // events emitted by Before/AfterTransactionsExecute
 	obs     []obsRec
 }
 
@@ -191,6 +195,22 @@ func (m *mod) runScript(ctx *statemachine.TransactionExecuteContext, s script) e
 	return nil
 }
 
+func (m *mod) BeforeTransactionsExecute(ctx *statemachine.BeforeTransactionsExecuteContext) error {
+	for i := 0; i < m.nb; i++ {
+		if err := ctx.EventQueue().Add("m", "alpha", []byte{byte(i)}, nil); err != nil {
+			return err
+		}
+	}
+	return nil
+}
+func (m *mod) AfterTransactionsExecute(ctx *statemachine.AfterTransactionsExecuteContext) error {
+	for i := 0; i < m.na; i++ {
+		if err := ctx.EventQueue().AddUnrevertible("m", "beta", []byte{byte(i)}, nil); err != nil {
+			return err
+		}
+	}
+	return nil
+}
 func (m *mod) BeforeCommandExecute(ctx *statemachine.TransactionExecuteContext) error {
 	return m.runScript(ctx, m.script(ctx).Before)
 }
@@ -241,6 +261,9 @@ type stepRec struct {
 	Txs      []txRec    `json:"txs,omitempty"`
 	Txs2     []txRec    `json:"txs2,omitempty"` // gen: the selected transactions executed again as a block
 	SelOK    bool       `json:"selok,omitempty"`
+	NB       int        `json:"nb,omitempty"`
+	NA       int        `json:"na,omitempty"`
+	BEvents  []evRec    `json:"bev,omitempty"`   // cblock: the block's events after the engine's renumbering
 	Cands    []txScript `json:"cands,omitempty"` // gen: the candidate scripts in pool order (for replay)
 	Dry      bool       `json:"dry,omitempty"`
 	Mid      string     `json:"mid,omitempty"` // a dry-run / refused Commit in the middle of the block (same context keeps being used)
@@ -592,6 +615,117 @@ func (a *recABI) ExecuteTransaction(req *labi.ExecuteTransactionRequest) (*labi.
 	return resp, err
 }
 
+// cblock: a block executed the way consensus.processValidated does it — newBlockExecuteABI + Execute (hook
+// VerifC16ExecuteBlock): BeforeTransactionsExecute, Verify/ExecuteTransaction per transaction, AfterTransactionsExecute and the
+// block-level renumbering of the events (Events.UpdateIndex) — then Commit.
+func (n *node) cblock(height int, txs []txScript, nb, na int) stepRec {
+	st := stepRec{T: "cblock", Height: height, Expected: "none", Cands: txs, NB: nb, NA: na}
+	n.m.scripts = map[int]*txScript{}
+	n.m.nb, n.m.na = nb, na
+	defer func() { n.m.scripts, n.m.nb, n.m.na = nil, 0, 0 }()
+	block := &blockchain.Block{Transactions: []*blockchain.Transaction{}, Assets: blockchain.BlockAssets{}}
+	for i := range txs {
+		sc := txs[i]
+		n.m.scripts[i] = &sc
+		pk := make([]byte, 32)
+		pk[0] = byte(i + 1)
+		t := &blockchain.Transaction{Module: "m", Command: "run", Params: []byte{byte(i)}, Nonce: 0, Fee: 1000, SenderPublicKey: pk, Signatures: []codec.Hex{make([]byte, 64)}}
+		t.Init()
+		block.Transactions = append(block.Transactions, t)
+		st.Txs = append(st.Txs, txRec{S: sc, Events: []evRec{}})
+	}
+	// a BFT store in which the block's height is the next one
+	memdb, _ := db.NewInMemoryDB()
+	defer memdb.Close()
+	store := diffdb.New(memdb, []byte{9})
+	bft := liskbft.NewModule()
+	if err := bft.Init(103); err != nil {
+		panic(err)
+	}
+	gaddr := make([]byte, 20)
+	gaddr[0] = 7
+	gh := &blockchain.BlockHeader{Height: uint32(height - 1), AggregateCommit: &blockchain.AggregateCommit{}}
+	gh.Init()
+	if err := bft.InitGenesisState(gh.Readonly(), store); err != nil {
+		panic(err)
+	}
+	vals, gens := liskbft.GetBFTValidatorAndGenerators(labi.Validators{{Address: gaddr, BFTWeight: 1, GeneratorKey: make([]byte, 32), BLSKey: make([]byte, 48)}})
+	if err := bft.API().SetBFTParameters(store, 1, 1, vals); err != nil {
+		panic(err)
+	}
+	if err := bft.API().SetGeneratorKeys(store, gens); err != nil {
+		panic(err)
+	}
+	block.Header = &blockchain.BlockHeader{Version: 2, Height: uint32(height), GeneratorAddress: gaddr, AggregateCommit: &blockchain.AggregateCommit{}}
+	block.Header.Init()
+	var ctxID codec.Hex
+	var evs []*blockchain.Event
+	var xerr error
+	st.Panic = guard(func() { ctxID, evs, xerr = consensus.VerifC16ExecuteBlock(n.h, bft, store, block) })
+	if st.Panic != "" || xerr != nil {
+		st.Res = "panic"
+		if xerr != nil {
+			st.Res = "err:" + xerr.Error()
+		}
+		n.h.Clear(&labi.ClearRequest{})
+		st.Dump, _ = n.dump()
+		return st
+	}
+	st.BEvents = []evRec{}
+	for _, e := range evs {
+		er := evRec{Data: toInts(e.Data), Index: int(e.Index), Height: int(e.Height), Name: -1, Topics: []int{}, TxOK: true}
+		for j, nm := range eventNames {
+			if nm == e.Name {
+				er.Name = j
+			}
+		}
+		if e.Name == blockchain.EventNameDefault {
+			er.Name = 100
+		}
+		for j, tp := range e.Topics {
+			switch {
+			case j == 0 && len(tp) == 1: // block-level default topics: [2] before, [3] after the transactions
+				er.Topics = append(er.Topics, 200+int(tp[0]))
+			case j == 0: // a transaction id: which transaction of the block?
+				k := -1
+				for i, t := range block.Transactions {
+					if bytes.Equal(tp, t.ID) {
+						k = i
+					}
+				}
+				er.Topics = append(er.Topics, 1000+k)
+			default:
+				er.Topics = append(er.Topics, int(tp[0]))
+			}
+		}
+		st.BEvents = append(st.BEvents, er)
+	}
+	var resp *labi.CommitResponse
+	st.Panic = guard(func() {
+		var e error
+		resp, e = n.h.Commit(&labi.CommitRequest{ContextID: ctxID, StateRoot: n.roots[height-1]})
+		if e == nil {
+			st.Res = "ok"
+			st.Root = hex.EncodeToString(resp.StateRoot)
+		} else {
+			st.Res = "err:" + e.Error()
+		}
+	})
+	if st.Panic != "" {
+		st.Res = "panic"
+	}
+	n.h.Clear(&labi.ClearRequest{})
+	var ref []byte
+	st.Dump, ref = n.dump()
+	if st.Res == "ok" {
+		n.roots[height] = resp.StateRoot
+		n.tip = height
+		st.RootRef = bytes.Equal(resp.StateRoot, ref)
+	}
+	st.TreeRef = st.Dump.TRoot == hex.EncodeToString(ref)
+	return st
+}
+
 // gen: what block generation does with the application — one context, the candidate transactions executed in fee order by
 // generator.selectTransactionsByFee (invalid ones are skipped and the SAME context keeps being used), Commit{DryRun} for
 // the header's state root — followed by what every node does with the generated block: the selected transactions on a
@@ -805,6 +939,8 @@ func main() {
 					outRec.Steps = append(outRec.Steps, n.block(s.Height, txs, s.Dry, s.Expected, s.Mid))
 				case "gen":
 					outRec.Steps = append(outRec.Steps, n.gen(s.Height, s.Cands))
+				case "cblock":
+					outRec.Steps = append(outRec.Steps, n.cblock(s.Height, s.Cands, s.NB, s.NA))
 				case "revert":
 					outRec.Steps = append(outRec.Steps, n.revert(s.Expected))
 				case "init":
@@ -821,6 +957,24 @@ func main() {
 		for j := 0; j < *nsteps; j++ {
 			x := r.Intn(20)
 			switch {
+			case x == 19:
+				txs := []txScript{}
+				for k := r.Intn(4); k > 0; k-- {
+					t := randTx(r)
+					t.Unknown = false
+					t.Before.Fail, t.After.Fail = false, false
+					for _, sc := range []*script{&t.Before, &t.Command, &t.After} {
+						kept := []act{}
+						for _, a := range sc.Acts {
+							if !(a.Op == "restore" && a.View == 0) {
+								kept = append(kept, a)
+							}
+						}
+						sc.Acts = kept
+					}
+					txs = append(txs, t)
+				}
+				rec.Steps = append(rec.Steps, n.cblock(n.tip+1, txs, r.Intn(3), r.Intn(3)))
 			case x < 3 && n.tip > 0:
 				txs := []txScript{}
 				for k := 1 + r.Intn(4); k >= 0; k-- {
